@@ -17,6 +17,12 @@ CHECKS = {
                      "including turning-point accounting and index->value consistency. Complete for the stated scope only.",
                 note="Reference definitions in mc/refs/rainflow.py are trusted (two independent four-point codings cross-checked on the whole space).",
                 ref="3 C02"),
+    "C03": dict(cat="exploration", tech="exhaustive enumeration of all instances of metamorphic relations (refinement, negation, affine, NaN, Series index) on all small signals",
+                text="For every base signal of length 2..n over {-2..2} and each detector, every instance of each relation the property names is executed on the "
+                     "real code: every single (thorough: double) insertion of a repeated value or midpoint, negation, 9 exact dyadic affine maps, every interior NaN "
+                     "placement (warning + index correction), 6 pandas index types. Equality is exact. Complete for the stated scope only.",
+                note="Dyadic maps keep float arithmetic exact; the relation's expected index map is the monotone map moving indices with their samples.",
+                ref="3 C03"),
 }
 
 NOT_APPLICABLE = []
